@@ -302,15 +302,34 @@ def step (s : St) (w : List String) : St × String :=
         | .ok v => (s, line s ("val=" ++ toHex v) "0" [(specR, specC s)])
         | x => (s, line s "absent" (resName x) [(specR, specC s)])
     | _, _ => (s, "bad-op")
-  | ["g", "view", pth, sp] =>
+  | "g" :: "view" :: pth :: sp :: rest =>
+    if rest.length > 1 then (s, "bad-op") else
     match parseText pth, parseChar sp with
     | some pth, some sp =>
       if s.views.length ≥ 16 then (s, "bad-op") else
-      match pathElems sp 0 pth with
-      | .ok es =>
-        let s' := { s with views := s.views ++ [es] }
-        (s', line s' "ok" (toString s.views.length) [("ok", specC s')])
-      | x => (s, line s (resName x) "-" [("ok", "*")])
+      let how := rest.head?
+      let skip : Option Nat := match how with | none => some 0 | some "last" => some 0 | some w => w.toNat?
+      match skip with
+      | none => (s, "bad-op")
+      | some skip =>
+        if skip > 8 then (s, "bad-op") else
+        -- the path the view is made from: advanced by `skip` elements, or reduced to its last element
+        let p0 := (pathSet sp 0 pth).1
+        let p1 : Res Path := (nextN p0 skip).bind fun q =>
+          if how = some "last" then (pathLast q).bind fun r => .ok r.1 else .ok q
+        let comps := PathMap.splitPath sp 0 pth
+        let specBase : List (List Byte) := if how = some "last" then (match comps.getLast? with | some e => [e] | none => []) else comps.drop skip
+        match p1 with
+        | .ok q =>
+          if q.len = 0 then (s, line s "unbuilt" "-" [(if specBase.isEmpty then "unbuilt" else "ok", specC s)]) else
+          match elems q (pth.length + 2) with
+          | .ok es =>
+            let s' := { s with views := s.views ++ [es] }
+            -- the specification's view base is what the later operations are judged against
+            let sspec := { s with views := s.views ++ [specBase] }
+            (s', line s' (if es = specBase then "ok" else "ok:base=" ++ fmtElems es) (toString s.views.length) [("ok", specC sspec)])
+          | x => (s, line s (resName x) "-" [("ok", "*")])
+        | _ => (s, line s "unbuilt" "-" [(if specBase.isEmpty then "unbuilt" else "ok", specC s)])
     | _, _ => (s, "bad-op")
   | ["g", "split", txt, sp, asg] =>
     match parseText txt, parseChar sp, parseChar asg with
@@ -513,6 +532,30 @@ def step (s : St) (w : List String) : St × String :=
     if !s.xlive then (s, "bad-op") else
     let s' := { s with xi := [], mx := [], ex := [] }
     (s', xline s' "ok" "0" [("ok", xspecC s')])
+  | ["x", "pshare", sp, els, els2] =>
+    if !s.xlive then (s, "bad-op") else
+    match parseChar sp, (els.splitOn ",").mapM parseText, (els2.splitOn ",").mapM parseText with
+    | some sp, some es, some es2 =>
+      -- a copy of a path is a value of its own: what happens to the original afterwards does not reach it
+      match pushElems (emptyPath sp 0 false) es with
+      | .ok p =>
+        if p.len = 0 then (s, "bad-op") else
+        let valid := sp ≠ 0 ∧ (es ++ es2).all (fun e => !e.contains sp)
+        let specR := if valid then
+            s!"del={(es.getLast?.map (·.length)).getD 0} add={String.join (es2.map fun _ => "+")} q={fmtElems (es ++ es2)} p={fmtElems es.dropLast}"
+          else "*"
+        let (dl, p1) : String × Path := match pathDel p with
+          | .ok (q, n) => (toString n, q)
+          | .err e => (toString e.code, p)
+          | _ => ("FAULT", p)
+        let built := es2.foldl (fun (acc : Path × String) e =>
+          match pushElem acc.1 e with
+          | .ok q => (q, acc.2 ++ "+")
+          | _ => (e.foldl pushChar acc.1, acc.2 ++ "E")) (p, "")
+        let walk := fun (q : Path) => match elems q (q.base.length + 2) with | .ok l => fmtElems l | x => resName x
+        (s, xline s s!"del={dl} add={built.2} q={walk built.1} p={walk p1}" "0" [(specR, xspecC s)])
+      | _ => (s, "bad-op")
+    | _, _, _ => (s, "bad-op")
   | ["x", "padd", sp, els] =>
     if !s.xlive then (s, "bad-op") else
     match parseChar sp, (els.splitOn ",").mapM parseText with
